@@ -480,6 +480,7 @@ func (c *wsConn) handleResponse(frame frame) {
 		var chid uint64
 		if err := json.Unmarshal(frame.Result, &chid); err != nil {
 			log.Errorf("failed to unmarshal channel id response: %s, data '%s'", err, string(frame.Result))
+			vhook("resp.abandon", c, frame.ID)
 			return
 		}
 
